@@ -4,8 +4,11 @@
 (* formula on audited lanes) and C06 (stateful sponge histories).          *)
 (*                                                                         *)
 (* C06 state: per instance the direction and, per lane, the list of        *)
-(* absorbed block keys (0 = the all-zero block a lane outside the batch    *)
-(* absorbs) and the number of squeezed blocks; obs maps an output term     *)
+(* absorbed block keys (0 = an explicit all-zero block; -1 = the lane was  *)
+(* outside the batch of that Absorb call: C06 speaks about the lanes of a  *)
+(* batch, what an implementation does with the others is left open, so    *)
+(* such a lane is out of the domain until the next Reset) and the number   *)
+(* of squeezed blocks; obs maps an output term     *)
 (* <<absorbed keys, k>> to the fingerprint observed for it.  An event is   *)
 (* rejected when a term is observed with two different fingerprints        *)
 (* (some lane depended on something else than its own history), when an    *)
@@ -36,7 +39,8 @@ ExpectedErr(e) == CASE e.in.bad = "" -> "" [] e.in.bad \in {"batch0", "batch65"}
 
 AfterAbsorb(c, lanes, nblocks) ==        \* lanes: per lane the key of each block
   [c EXCEPT !.abs = [j \in 1..MaxBatch |->
-       c.abs[j] \o (IF j <= Len(lanes) THEN lanes[j] ELSE [b \in 1..nblocks |-> 0])]]
+       c.abs[j] \o (IF j <= Len(lanes) THEN lanes[j] ELSE [b \in 1..nblocks |-> -1])]]
+InDomain(c, j) == \A k \in DOMAIN c.abs[j] : c.abs[j][k] # -1
 
 \* terms produced by squeezing nblocks from lanes 1..nl of instance c
 Terms(c, nl, nblocks) == [j \in 1..nl |-> [b \in 1..nblocks |-> <<c.abs[j], c.sq[j] + b>>]]
@@ -46,7 +50,7 @@ AfterSqueeze(c, nblocks) ==
 
 NewObs(e, c) ==        \* set of <<term, fp>> observed by this squeeze event
   LET t == Terms(c, e.in.nlanes, e.in.nblocks)
-  IN {<<t[j][b], e.out.fp[j][b]>> : j \in 1..e.in.nlanes, b \in 1..e.in.nblocks}
+  IN {<<t[j][b], e.out.fp[j][b]>> : j \in {jj \in 1..e.in.nlanes : InDomain(c, jj)}, b \in 1..e.in.nblocks}
 Consistent(S) == \A x \in S, y \in S : x[1] = y[1] => x[2] = y[2]
 ObsOK(S) == /\ Consistent(S)
             /\ \A x \in S : x[1] \in DOMAIN obs => obs[x[1]] = x[2]
@@ -55,7 +59,7 @@ AuditOK(e, c) ==
   \A a \in RangeOf(e.out.audit) :
      LET j == a.lane
          blocks == [k \in DOMAIN c.abs[j] |-> BlockOf(c.abs[j][k])]
-     IN a.trits = FlattenFixed([b \in 1..e.in.nblocks |-> SpongeOut(blocks, c.sq[j] + b, N81, R81)], HashLen)
+     IN InDomain(c, j) => a.trits = FlattenFixed([b \in 1..e.in.nblocks |-> SpongeOut(blocks, c.sq[j] + b, N81, R81)], HashLen)
 
 Conforms(e) ==
   CASE e.op = "curl.transform" -> TransformConforms(e)
